@@ -739,6 +739,30 @@ pub async fn run_c04_short_strings() {
         decode_all(&[], true);
         return;
     }
+    // the frame decoders get the frame without its size field: data offset, type, channel, then
+    // extended header and body. Every data offset `c`, every frame type that matters, and every
+    // length of what follows from 0 to 40 bytes (so that the data offset points before, at and
+    // beyond the end of the frame), with a body of zeros and with a small valid performative
+    {
+        let doff = c as u8;
+        let close: [u8; 4] = [0x00, 0x53, 0x18, 0x45]; // close, empty list
+        for ftype in [0u8, 1, 2, 0xff] {
+            for extra in 0..=40usize {
+                for tail in 0..2 {
+                    let mut f = BytesMut::from(&[doff, ftype, 0, 0][..]);
+                    f.extend_from_slice(&vec![0u8; extra]);
+                    if tail == 1 {
+                        f.extend_from_slice(&close);
+                    }
+                    let n = f.len();
+                    let mut g = f.clone();
+                    let _ = measure(n, "amqp::FrameDecoder (header sweep)", || FrameDecoder {}.decode(&mut f));
+                    let _ = measure(n, "sasl::FrameCodec (header sweep)", || FrameCodec {}.decode(&mut g));
+                }
+            }
+        }
+        sim::probe("frame-header-sweep-done");
+    }
     let first = c as u8;
     decode_all(&[first], true);
     for b in 0..=255u8 {
@@ -1213,4 +1237,148 @@ pub async fn run_c20_sizes() {
         sim::probe("width-boundary-checked");
     }
     sim::probe("sizes-checked");
+}
+
+// ---------------------------------------------------------------------------------------
+// C04, typed: "decoding it as any public type returns either a value or an error". The decoder
+// keeps a little state between the values of one input (which AMQP-only type the next value is
+// announced as); two typed values decoded one after the other from a valid encoding of a list
+// must both come out as they do alone, whatever the first one was.
+
+pub async fn run_c04_typed_pairs() {
+    use serde_amqp::primitives::{Array, Binary, Dec128, Dec32, Dec64, Symbol, SymbolRef, Timestamp, Uuid};
+    sim::mark_nontrivial();
+    let firsts: Vec<(&str, V)> = vec![
+        ("Symbol", V::Sym("sym-a".into())),
+        ("SymbolRef", V::Sym("sym-b".into())),
+        ("LazyValue", V::List(vec![V::Uint(7), V::Str("lazy".into())])),
+        ("Uuid", V::Uuid([3; 16])),
+        ("Timestamp", V::Timestamp(1_600_000_000_123)),
+        ("Dec32", V::Dec32([1; 4])),
+        ("Dec64", V::Dec64([2; 8])),
+        ("Dec128", V::Dec128([4; 16])),
+        ("Array<u32>", V::Array(vec![V::Uint(70_000), V::Uint(1)])),
+        ("String", V::Str("first".into())),
+        ("Binary", V::Bin(vec![9, 8, 7])),
+        ("u32", V::Uint(300)),
+    ];
+    let seconds: Vec<(&str, V)> = vec![
+        ("Binary", V::Bin(vec![1, 2, 3, 4])),
+        ("String", V::Str("second".into())),
+        ("Symbol", V::Sym("sym-c".into())),
+        ("i64", V::Long(-5_000_000_000)),
+        ("Timestamp", V::Timestamp(42)),
+        ("Uuid", V::Uuid([5; 16])),
+        ("Vec<u32>", V::List(vec![V::Uint(1), V::Uint(70_000)])),
+        ("Array<u32>", V::Array(vec![V::Uint(2), V::Uint(70_001)])),
+        ("LazyValue", V::Map(vec![(V::Str("k".into()), V::Uint(1))])),
+    ];
+    let fi = choice(firsts.len() as u32) as usize;
+    let si = choice(seconds.len() as u32) as usize;
+    let (fname, fv) = firsts[fi].clone();
+    let (sname, sv) = seconds[si].clone();
+    let wide = choice(3) == 0;
+    let bytes = refcodec::encode_with(&V::List(vec![fv.clone(), sv.clone()]), refcodec::EncOpts { wide });
+    let chunk = pick(&[u32::MAX, 1, 2, 3, 7, 64]);
+    sim::set_config(format!("variant=typed-pairs first={} second={} wide={} chunk={} bytes={}", fname, sname, wide, chunk, refcodec::hex(&bytes[..bytes.len().min(64)])));
+    sim::evh_bytes(0xC04, &bytes);
+    let e1 = refcodec::encode_with(&fv, refcodec::EncOpts { wide });
+    let e2 = refcodec::encode_with(&sv, refcodec::EncOpts { wide });
+    macro_rules! second {
+        ($A:ty, $B:ty) => {{
+            let alone_a: Result<$A, _> = from_slice(&e1);
+            let alone_b: Result<$B, _> = from_slice(&e2);
+            let pair: Result<($A, $B), _> = from_slice(&bytes);
+            let mut rd = SimRead::new(bytes.clone(), chunk, 0, None);
+            let pair_stream: Result<($A, $B), _> = from_reader(&mut rd);
+            match (alone_a, alone_b) {
+                (Ok(a), Ok(b)) => {
+                    for (how, p) in [("slice", pair), ("stream", pair_stream)] {
+                        match p {
+                            Ok((x, y)) if format!("{:?}", x) == format!("{:?}", a) && format!("{:?}", y) == format!("{:?}", b) => {}
+                            other => {
+                                sim::violation(
+                                    "typed-pair",
+                                    format!("({}, {}) from the {} reader: the values decode alone as {:?} and {:?}; one after the other they give {:?}", fname, sname, how, a, b, other.map(|(x, y)| format!("({:?}, {:?})", x, y))),
+                                );
+                                return;
+                            }
+                        }
+                    }
+                    sim::probe("typed-pair-decoded");
+                }
+                _ => sim::probe("valid-encoding-rejected"),
+            }
+        }};
+    }
+    macro_rules! second_slice {
+        ($A:ty, $B:ty) => {{
+            let alone_a: Result<$A, _> = from_slice(&e1);
+            let alone_b: Result<$B, _> = from_slice(&e2);
+            let pair: Result<($A, $B), _> = from_slice(&bytes);
+            match (alone_a, alone_b) {
+                (Ok(a), Ok(b)) => {
+                    for (how, p) in [("slice", pair)] {
+                        match p {
+                            Ok((x, y)) if format!("{:?}", x) == format!("{:?}", a) && format!("{:?}", y) == format!("{:?}", b) => {}
+                            other => {
+                                sim::violation(
+                                    "typed-pair",
+                                    format!("({}, {}) from the {} reader: the values decode alone as {:?} and {:?}; one after the other they give {:?}", fname, sname, how, a, b, other.map(|(x, y)| format!("({:?}, {:?})", x, y))),
+                                );
+                                return;
+                            }
+                        }
+                    }
+                    sim::probe("typed-pair-decoded");
+                }
+                _ => sim::probe("valid-encoding-rejected"),
+            }
+        }};
+    }
+    macro_rules! first {
+        ($A:ty) => {
+            match si {
+                0 => second!($A, Binary),
+                1 => second!($A, String),
+                2 => second!($A, Symbol),
+                3 => second!($A, i64),
+                4 => second!($A, Timestamp),
+                5 => second!($A, Uuid),
+                6 => second!($A, Vec<u32>),
+                7 => second!($A, Array<u32>),
+                _ => second!($A, LazyValue),
+            }
+        };
+    }
+    macro_rules! first_slice {
+        ($A:ty) => {
+            match si {
+                0 => second_slice!($A, Binary),
+                1 => second_slice!($A, String),
+                2 => second_slice!($A, Symbol),
+                3 => second_slice!($A, i64),
+                4 => second_slice!($A, Timestamp),
+                5 => second_slice!($A, Uuid),
+                6 => second_slice!($A, Vec<u32>),
+                7 => second_slice!($A, Array<u32>),
+                _ => second_slice!($A, LazyValue),
+            }
+        };
+    }
+    match fi {
+        0 => first!(Symbol),
+        // (a borrowed symbol cannot come out of a stream)
+        1 => first_slice!(SymbolRef<'_>),
+        2 => first!(LazyValue),
+        3 => first!(Uuid),
+        4 => first!(Timestamp),
+        5 => first!(Dec32),
+        6 => first!(Dec64),
+        7 => first!(Dec128),
+        8 => first!(Array<u32>),
+        9 => first!(String),
+        10 => first!(Binary),
+        _ => first!(u32),
+    }
 }
